@@ -1207,7 +1207,16 @@ void OPNMIDIplay::noteUpdate(size_t midCh,
         {
             synth.setPatch(c, ins.ains);
             OpnChannel::users_iterator ci = m_chipChannels[c].find_or_create_user(my_loc);
-            if(!ci.is_end())    // inserts if necessary
+            if(ci.is_end())
+            {
+                // The user list of this chip channel is full (128 notes share it as an arpeggio):
+                // the note is not booked there, so it must not keep referring to the channel
+                info.phys_erase_at(&ins);
+                --ccount;
+                --ctotal;
+                continue;
+            }
+            else    // inserts if necessary
             {
                 OpnChannel::LocationData &d = ci->value;
                 d.sustained = OpnChannel::LocationData::Sustain_None;
